@@ -325,6 +325,23 @@ theorem C06_converged_reads_equal_false : ¬ C06_converged_reads_equal := fun h 
   non_replicated_cluster_counterexample.2.2.2
     (h 2 false nonReplicatedClusterRun kA non_replicated_cluster_counterexample.2.1)
 
+/-! ## the repaired front end (fix prepared on fixes-glue-s3): MSET is one SET per pair -/
+
+/-- with `splitCmdFixed` an MSET is never outside the fragment: its step keeps every node's
+    invariant (served = replicated) and is a run of layer-1 steps, one delta per pair -/
+theorem mset_split_step_ok (g : GCluster) (h : AllInv g) (i : Nat) (kvs : List (Nat × BS)) :
+    AllInv (g.stepFixed (.client i (.mset kvs))) ∧
+    ∃ evs : List Ev, (g.stepFixed (.client i (.mset kvs))).proj = g.proj.run evs :=
+  step_fixed_ok h (.client i (.mset kvs)) (fun hne => absurd rfl (hne i kvs))
+
+/-- the history of `non_replicated_cluster_counterexample` on the repaired front end: the MSET
+    ships its pair, after delivery both nodes serve it -/
+theorem mset_split_replicates :
+    let g := (GCluster.init 2 false).runFixed [.client 0 (.mset [(kA, [119]), (kB, [120])]), .deliver 1 0, .deliver 1 1]
+    g.sent.length = 2 ∧ Delivered g.proj kA ∧ Delivered g.proj kB ∧
+    (∀ ni ∈ g.nodes, ∀ nj ∈ g.nodes, ReadsEqual ni nj kA ∧ ReadsEqual ni nj kB) := by
+  decide
+
 /-! ## non-vacuity -/
 
 /-- one node: conditional SETs (one rejected), GET-flavoured SET, expiry, INCRBY, APPEND on keys
